@@ -522,6 +522,11 @@ def build(params: tuple, pick: Callable[[int, str], int]) -> tuple:
             if name == "reply":
                 return [wsev(close_frame(own_code if own_code is not None else 1000))]
             guard = [("cmd", 0, "ws_wait")] if family == "race" else []  # abrupt loss of an *established* session
+            if name == "armfail":
+                # the server's NEXT write fails (the peer vanished without the server having noticed): with an
+                # application that only waits, that next write is the reply to the client's Close - the client's
+                # close frame was received in full before anything went wrong, so its code is what happened
+                return guard + [("wfail", 0)]
             if name == "eof":
                 return guard + [("eof", 0)]
             if name == "reset":
@@ -634,6 +639,8 @@ def scenarios(tier: str) -> List[Any]:
             races = [(("acc", "close", "wait"), "cc:1001"), (("acc", "close_c", "wait"), "cc:none"),
                      (("acc", "close", "wait"), "eof"), (("acc", "wait"), "cc:1001+eof"),
                      (("acc", "wait"), "cc:3000+reset"), (("acc", "send_t", "close", "wait"), "cc:1000+eof")]
+            if carrier == "ws/h1":
+                races += [(("acc", "wait"), "armfail+cc:1001"), (("acc", "wait"), "armfail+cc:none")]
             if carrier == "ws/h2":
                 races += [(("acc", "close", "wait"), "rst"), (("acc", "wait"), "cc:1001+rst")]
             for seq, closing in races:
